@@ -32,6 +32,9 @@ class CheckBase(object):
     thorough_budget_s = 900
     run_timeout = 60            # per simulated run; expiry = harness error
     det_sample_quick = 16
+
+    def hash_order_sensitive(self, trace):
+        return False
     det_sample_thorough = 128
     components = {}
     assumptions = []
@@ -378,11 +381,21 @@ def _main_batch(check, args, tier, seed, t0):
         step = max(1, len(done) // k)
         sample = done[::step][:k]
         again = digests_for(check, seed, tier, sample, max(2, args.nproc // 2 + 1))
-        fresh = fresh_interpreter_digests(check, seed, tier, sample[:max(4, k // 2)], 4242, max(2, args.nproc // 3))
+        fsample = sample[:max(4, k // 2)]
+        # runs whose course depends on the iteration order of a set of strings INSIDE the code under test are
+        # repeated under the pinned hash seed (bin/check pins PYTHONHASHSEED=0: the hash seed is part of the
+        # simulated environment); every other run under another one, which is what exposes a harness that
+        # leans on hash order
+        pinned = [i for i in fsample if check.hash_order_sensitive(check.generate(derive_rng(seed, check.id, i), i, tier))]
+        other = [i for i in fsample if i not in set(pinned)]
+        fresh = fresh_interpreter_digests(check, seed, tier, other, 4242, max(2, args.nproc // 3)) if other else {}
+        if pinned:
+            fresh.update(fresh_interpreter_digests(check, seed, tier, pinned, 0, max(2, args.nproc // 3)))
         bad = [i for i in sample if again.get(i) != agg.digests[i]]
         bad2 = [i for i in fresh if fresh[i] != agg.digests[i]]
         selftest['determinism'] = {'sampled_runs': len(sample), 'second_execution_other_worker_layout_mismatches': len(bad),
-                                   'fresh_interpreter_other_PYTHONHASHSEED_runs': len(fresh),
+                                   'fresh_interpreter_other_PYTHONHASHSEED_runs': len(other),
+                                   'fresh_interpreter_pinned_PYTHONHASHSEED_runs': len(pinned),
                                    'fresh_interpreter_mismatches': len(bad2)}
         if bad or bad2:
             raise HarnessError('determinism self-test failed: runs %s / %s have differing digests' % (bad[:5], bad2[:5]))
